@@ -112,6 +112,33 @@ def create_clone(expression: exp.Expression) -> exp.Expression:
     return expression
 
 
+def current_database_schema(
+    expression: exp.Expression, current_database: str | None = None, current_schema: str | None = None
+) -> exp.Expression:
+    """Answer CURRENT_DATABASE() and CURRENT_SCHEMA() from the session's context, NULL when it has none.
+
+    The engine's own answers are its default catalog (memory) and schema (main) for a session without a current
+    database or schema, and a dropped schema for a session whose current schema has been dropped.
+    """
+
+    if (
+        isinstance(expression, exp.Anonymous)
+        and isinstance(expression.this, str)
+        and expression.this.upper() in ("CURRENT_DATABASE", "CURRENT_SCHEMA")
+        and not expression.expressions
+        # a view or default must keep evaluating the function when it's used
+        and not expression.find_ancestor(exp.Create)
+    ):
+        value = current_database if expression.this.upper() == "CURRENT_DATABASE" else current_schema
+        answer = exp.Literal.string(value) if value else exp.Cast(this=exp.Null(), to=exp.DataType.build("VARCHAR"))
+        if isinstance(expression.parent, exp.Select) and expression.arg_key == "expressions":
+            # keep the column name
+            return exp.alias_(answer, f"{expression.this.lower()}()", quoted=True)
+        return answer
+
+    return expression
+
+
 # TODO: move this into a Dialect as a transpilation
 def create_database(expression: exp.Expression, db_path: Path | None = None) -> exp.Expression:
     """Transform create database to attach database.
